@@ -23,6 +23,8 @@ import (
 //	rule-replaced-in-library    a rule was removed from the library and built again under the same name (first / last rule)
 //	blueprint-runs-rule-replaced-twice
 //	                            the blueprint itself runs; between its runs the last rule is replaced by an identical one, twice
+//	blueprint-runs-library-removal
+//	                            the blueprint itself runs, the last rule is removed through the library, it runs again
 type histVariant struct {
 	label string
 	tr    *hx.Trace
@@ -156,6 +158,18 @@ func historyVariants(c *Case, b *hx.Built, prog *hx.Program, mk func() *ref.Worl
 		if ok {
 			w := mk()
 			out = append(out, histVariant{"blueprint-runs-rule-replaced-twice", hx.Run(lb, w, o), w, c})
+		}
+	}
+	// 6. the blueprint itself is what runs; between two of its runs the last rule is removed through the LIBRARY
+	if lb, err := hx.Build(prog); err == nil {
+		bp := lb.Lib.GetKnowledgeBase(hx.KBName, hx.KBVer)
+		o := c.Opts
+		o.KB = bp
+		if first := hx.Run(lb, mk(), o); first.Panic == nil {
+			lb.Lib.RemoveRuleEntry(last, hx.KBName, hx.KBVer)
+			o.Removed = map[string]bool{last: true}
+			w := mk()
+			out = append(out, histVariant{"blueprint-runs-library-removal", hx.Run(lb, w, o), w, c})
 		}
 	}
 	return out
